@@ -311,6 +311,19 @@ def _xlogy(x, y):
     return mpmath.mpf(0) if x == 0 else x * mpmath.log(y)
 
 
+def _real(f):
+    """real-valued interpretation: nan outside the domain (as numpy does)"""
+    def g(*a):
+        try:
+            r = f(*a)
+        except (ValueError, ZeroDivisionError):
+            return mpmath.mpf("nan")
+        if isinstance(r, mpmath.mpc):
+            return mpmath.mpf("nan") if r.imag != 0 else r.real
+        return r
+    return g
+
+
 UF_INTERP = {
     "pow": lambda b, e: mpmath.power(b, e),
     "log": lambda x: mpmath.log(x),
@@ -321,7 +334,10 @@ UF_INTERP = {
     "erfinv": lambda x: mpmath.erfinv(x),
     "poisson_logpdf": lambda n, lam: _xlogy(n, lam) - lam - mpmath.loggamma(n + 1),
     "normal_logpdf": lambda x, mu, s: -((x - mu) / s) ** 2 / 2 - mpmath.log(s) - mpmath.log(2 * mpmath.pi) / 2,
+    "xlogy": _xlogy,
+    "gammaln": lambda x: mpmath.loggamma(x),
 }
+UF_INTERP = {k: _real(v) for k, v in UF_INTERP.items()}
 
 
 def evaluate(e, env, interp=None):
